@@ -3,6 +3,8 @@ import ShellOp.Proofs.InformerReplay
 import ShellOp.Proofs.MonitorEnable
 import ShellOp.Props.C07
 import ShellOp.Proofs.SnapshotCache
+import ShellOp.Generated.Trans
+import ShellOp.Model.Retry
 /-!
 # C01 — no cluster change is lost between Synchronization and later Events
 
@@ -288,6 +290,98 @@ a namespace that comes back would be ignored. Shown on a model state, not a sche
 example : ¬ Tracks { varying := [], cancel := [1], live := [1] } := by
   intro t; have := t.watched 1 (by simp); simp [keys] at this
 
+/-- Every informer of the monitor is locked and `eventsEnabled` is unset — as long as the unlock has not begun. -/
+def LockedBefore (s : MSt) : Prop :=
+  s.ea = .start → s.flag = false ∧ (∀ b ∈ s.statics, b = false) ∧ (∀ p ∈ s.varying, p.2 = false)
+
+theorem lockedBefore_step (s s' : MSt) (a : MAct) (h : step true s a = some s')
+    (g : LockedBefore s) : LockedBefore s' := by
+  intro he
+  cases a with
+  | ea =>
+    simp only [step] at h
+    split at h <;> first
+      | (simp only [if_true, Option.some.injEq] at h; subst h; simp at he)
+      | simp at h
+  | visitExtra ns =>
+    simp only [step] at h
+    split at h
+    · rename_i hea
+      simp only [Option.some.injEq] at h; subst h
+      simp [hea] at he
+    · simp at h
+  | nsStore ns =>
+    simp only [step] at h
+    split at h
+    · simp only [Option.some.injEq] at h; subst h
+      exact g he
+    · simp only [Option.some.injEq] at h; subst h
+      obtain ⟨hf, hs, hv⟩ := g he
+      refine ⟨hf, hs, fun p hp => ?_⟩
+      rcases List.mem_append.mp hp with hp | hp
+      · exact hv p hp
+      · simp at hp; subst hp; rfl
+  | nsRead ns =>
+    simp only [step] at h
+    split at h
+    · simp only [Option.some.injEq] at h; subst h
+      obtain ⟨hf, hs, hv⟩ := g he
+      refine ⟨hf, hs, fun p hp => ?_⟩
+      simp only [hf] at hp
+      exact hv p (by simpa using hp)
+    · simp at h
+  | nsDel ns =>
+    simp only [step] at h
+    split at h
+    · simp at h
+    · split at h
+      · simp only [Option.some.injEq] at h; subst h
+        obtain ⟨hf, hs, hv⟩ := g he
+        exact ⟨hf, hs, fun p hp => hv p (List.mem_filter.mp hp).1⟩
+      · simp only [Option.some.injEq] at h; subst h
+        exact g he
+
+/-- **C01 ("No Event of a binding is handed to the hook before that binding's Synchronization step
+has completed successfully"), monitor level.** From the state `CreateInformers` + `Start` leave
+behind — every static informer locked, `nss` the matching namespaces that existed, INCLUDING NONE
+(`nss = []`: the monitor starts without a single informer) — over every history of namespaces
+appearing, disappearing and coming back and every interleaving of their callbacks: as long as
+`EnableKubeEventCb` (called only after the successful Synchronization, `unlock_only_combined`) has
+not begun, `eventsEnabled` is unset and every informer the monitor has, old or new, is locked — so
+(informer level, `no_event_before_unlock`) it hands nothing to the hook. -/
+theorem locked_until_unlock (st : List Bool) (nss : List Nat) (sched : List MAct)
+    (hst : ∀ b ∈ st, b = false) :
+    LockedBefore (run true (initial st nss) sched) := by
+  have h0 : LockedBefore (initial st nss) := by
+    intro _
+    refine ⟨rfl, hst, fun p hp => ?_⟩
+    simp only [initial, List.mem_map] at hp
+    obtain ⟨n, _, rfl⟩ := hp
+    rfl
+  generalize initial st nss = s at h0
+  induction sched generalizing s with
+  | nil => exact h0
+  | cons a rest ih =>
+    simp only [run, List.foldl_cons]
+    cases hs : step true s a with
+    | none => simpa [run, hs] using ih s h0
+    | some s' => simpa [run, hs] using ih s' (lockedBefore_step s s' a hs h0)
+
+/-- Non-vacuity, the boundary: no namespace matches at start; two appear (callbacks complete) before
+the unlock has begun — both have informers, all of them locked, the flag unset; after the unlock
+both are unlocked. -/
+example :
+    let s := run true (initial [] []) [.nsStore 1, .nsRead 1, .nsStore 2, .nsRead 2]
+    s.ea = .start ∧ s.varying = [(1, false), (2, false)] ∧ s.flag = false ∧
+    AllEnabled (run true s [.ea, .ea, .ea, .ea, .ea, .ea]) := by decide
+
+/-- What `locked_until_unlock` excludes: were the monitor to start with `eventsEnabled` already set
+(here: put into the state by hand), the informers of the first namespace that appears would pass
+events on before the unlock — i.e. before the Synchronization has completed. -/
+example :
+    let s := run true { (initial [] []) with flag := true } [.nsStore 1, .nsRead 1]
+    s.ea = .start ∧ s.varying = [(1, true)] := by decide
+
 end ShellOp.MonitorEnable.C01
 
 
@@ -355,6 +449,170 @@ example : combineGo [(0, [{ id := 1, ctxs := [⟨1, 0, 5⟩], mons := [7], group
        [(0, [{ id := 1, ctxs := [⟨1, 0, 5⟩], mons := [7], group := 5, btype := 2 },
              { id := 3, ctxs := [⟨3, 0, 0⟩], mons := [9], allowFailure := true, btype := 2 }])]) := by
   decide
+
+/-! ## The retried Synchronization run is still a Synchronization
+
+`taskHandleHookRun` decides `isSynchronization := hookMeta.IsSynchronization()` (first context is a
+kubernetes Synchronization) when it is entered, and unlocks `hookMeta.MonitorIDs` after a successful
+run only if that was true. The combined contexts and monitor ids are written back into the task
+(`t.UpdateMetadata`), so a run that FAILED is retried with the task as it was executed: the decision
+is taken again, on the combined contexts. -/
+
+/-- A Synchronization task: kubernetes binding, at least one context, every context a Synchronization. -/
+def SyncTask (t : Task) : Prop := t.btype = 2 ∧ t.ctxs ≠ [] ∧ ∀ c ∈ t.ctxs, c.typ = 0
+
+theorem compact_mem {x : Ctx} {l : List Ctx} (h : x ∈ Spec.compact l) : x ∈ l := by
+  induction l using Spec.compact.induct with
+  | case1 => simp [Spec.compact] at h
+  | case2 c => simpa [Spec.compact] using h
+  | case3 c d rest hc ih =>
+    have e : Spec.compact (c :: d :: rest) = Spec.compact (d :: rest) := by simp [Spec.compact, hc]
+    rw [e] at h
+    exact List.mem_cons_of_mem _ (ih h)
+  | case4 c d rest hc ih =>
+    have e : Spec.compact (c :: d :: rest) = c :: Spec.compact (d :: rest) := by simp [Spec.compact, hc]
+    rw [e] at h
+    rcases List.mem_cons.mp h with rfl | h
+    · exact List.mem_cons_self
+    · exact List.mem_cons_of_mem _ (ih h)
+
+theorem SyncTask.isSync {t : Task} (h : SyncTask t) : t.isSync = true := by
+  obtain ⟨hb, hne, hall⟩ := h
+  cases hc : t.ctxs with
+  | nil => exact absurd hc hne
+  | cons c rest =>
+    have := hall c (by rw [hc]; exact List.mem_cons_self)
+    simp [Task.isSync, hc, hb, this]
+
+/-- Tie T4: `HookMetadata.IsSynchronization` as translated from the Go source on every run
+(`len(m.BindingContext) > 0 && m.BindingContext[0].IsSynchronization()`) is the model's
+`Task.isSync`, for every task — however many contexts it carries. -/
+theorem translated_isSynchronization_eq_model (t : Task) :
+    ShellOp.Trans.hookMetaIsSynchronization t.btype t.ctxs = t.isSync := by
+  cases h : t.ctxs with
+  | nil => simp [ShellOp.Trans.hookMetaIsSynchronization, Task.isSync, h, Id.run]; rfl
+  | cons c rest => simp [ShellOp.Trans.hookMetaIsSynchronization, Task.isSync, h, Id.run]; rfl
+
+/-- The task that is written back is a Synchronization task whenever everything merged into it
+carries Synchronization contexts only — for any stop predicate, hook version, queue, concurrent
+appends. -/
+theorem prepared_is_synchronization_of_sync_merged (stopOf : Task → Option (Task → Bool)) (version : Nat)
+    (qs : QSet) (t : Task) (rest : List Task) (apps : List (Nat × List Task))
+    (hq : qs.get t.queue = some (t :: rest)) (hm : t.hasMeta = true)
+    (nd : ((t :: rest).map (·.id)).Nodup)
+    (fresh : ∀ a ∈ appsFor apps t.queue, a.id ∉ (t :: rest).map (·.id))
+    (ht : SyncTask t)
+    (hmerged : ∀ x ∈ Spec.merged t (stopOf t) rest, ∀ c ∈ x.ctxs, c.typ = 0)
+    (t' : Task) (qs' : QSet)
+    (h : prepareRun stopOf version qs t (appendEnv apps) = (some t', qs')) :
+    SyncTask t' ∧ t'.isSync = true ∧ ∀ m ∈ t.mons, m ∈ t'.mons := by
+  suffices hs : SyncTask t' ∧ ∀ m ∈ t.mons, m ∈ t'.mons from ⟨hs.1, hs.1.isSync, hs.2⟩
+  have self : SyncTask t ∧ ∀ m ∈ t.mons, m ∈ t.mons := ⟨ht, fun _ h => h⟩
+  simp only [prepareRun] at h
+  split at h
+  · split at h
+    · rw [C07.concurrent_append_safe qs t rest (stopOf t) apps hq hm nd fresh] at h
+      simp only [C07.specOutcome] at h
+      by_cases he : Spec.merged t (stopOf t) rest = []
+      · simp only [he, if_true, Prod.mk.injEq, Option.some.injEq] at h
+        obtain ⟨rfl, _⟩ := h; exact self
+      · simp only [he, if_false, Prod.mk.injEq, Option.some.injEq] at h
+        obtain ⟨rfl, _⟩ := h
+        obtain ⟨hb, hne, hall⟩ := ht
+        refine ⟨⟨hb, ?_, ?_⟩, ?_⟩
+        · -- the combined contexts are not empty
+          show Spec.contexts t _ ≠ []
+          cases hc : t.ctxs with
+          | nil => exact absurd hc hne
+          | cons c cs =>
+            simp only [Spec.contexts, hc, List.cons_append]
+            exact compact_ne_nil c _
+        · -- every combined context is a Synchronization
+          intro c hc
+          have hc := compact_mem (show c ∈ Spec.compact _ from hc)
+          rcases List.mem_append.mp hc with hc | hc
+          · exact hall c hc
+          · obtain ⟨x, hx, hcx⟩ := List.mem_flatMap.mp hc
+            exact hmerged x hx c hcx
+        · -- the monitor ids of `t` come first
+          intro m hm'
+          show m ∈ (if (Spec.monitors t _).length > 0 then Spec.monitors t _ else t.mons)
+          split
+          · exact List.mem_append_left _ hm'
+          · exact hm'
+    · simp only [Prod.mk.injEq, Option.some.injEq] at h
+      obtain ⟨rfl, _⟩ := h; exact self
+  · simp only [Prod.mk.injEq, Option.some.injEq] at h
+    obtain ⟨rfl, _⟩ := h; exact self
+
+/-- Tasks behind the executed one are as they were created (only the executed head task is ever
+rewritten by combining; `HandleEnableKubernetesBindings` creates one context per task): a task
+whose FIRST context is a Synchronization carries Synchronization contexts only. -/
+def AsCreated (rest : List Task) : Prop := ∀ x ∈ rest, x.isSync = true → ∀ c ∈ x.ctxs, c.typ = 0
+
+/-- **C01 (Synchronization that succeeds on a retry)** — for the stop predicate of the code as it is
+(after the repair of this wave: a Synchronization task is merged with Synchronization tasks only).
+`t` is the Synchronization task at the head of its queue; behind it ANY tasks (Events of bindings of
+the same hook and group that are already unlocked, Schedule tasks, …), other goroutines append
+more meanwhile; any hook version, any groups, any `allowFailure` / `executeHookOnSynchronization`.
+The task that is written back and executed — and RETRIED after a failed run — is again a
+Synchronization task: `IsSynchronization()` answers `true` for it however many contexts it
+carries now, and it carries every monitor id of `t`. So whichever attempt succeeds takes the
+unlock branch for all of them (`unlock_only_combined`: and for nothing that stays queued). -/
+theorem retried_synchronization_is_synchronization (version : Nat)
+    (qs : QSet) (t : Task) (rest : List Task) (apps : List (Nat × List Task))
+    (hq : qs.get t.queue = some (t :: rest)) (hm : t.hasMeta = true)
+    (nd : ((t :: rest).map (·.id)).Nodup)
+    (fresh : ∀ a ∈ appsFor apps t.queue, a.id ∉ (t :: rest).map (·.id))
+    (ht : SyncTask t) (hrest : AsCreated rest)
+    (t' : Task) (qs' : QSet)
+    (h : prepareRun stopOnAllowFailureChangeOrSkippedSync version qs t (appendEnv apps) = (some t', qs')) :
+    SyncTask t' ∧ t'.isSync = true ∧ ∀ m ∈ t.mons, m ∈ t'.mons := by
+  refine prepared_is_synchronization_of_sync_merged _ version qs t rest apps hq hm nd fresh ht ?_ t' qs' h
+  intro x hx c hc
+  have hxr : x ∈ rest := (List.takeWhile_sublist _).subset hx
+  have hcomb := (takeWhile_mem hx).2
+  have hts := ht.isSync
+  simp only [Spec.combinable, stopOnAllowFailureChangeOrSkippedSync, hts, Bool.true_and,
+    Bool.and_eq_true, Bool.not_eq_true', Bool.or_eq_false_iff, Bool.not_eq_false'] at hcomb
+  exact hrest x hxr hcomb.2.1.1 c hc
+
+/-- Non-vacuity (the layout of the harness' fixed case 6): two bindings of group 5 and a binding
+without a group in one hook; the run that combines them carries TWO contexts and three monitors and
+is a Synchronization task; retried (combined again with nothing), it still is. -/
+example :
+    let q : List Task := [{ id := 1, ctxs := [⟨1, 0, 5⟩], mons := [7], group := 5, btype := 2 },
+                          { id := 2, ctxs := [⟨2, 0, 5⟩], mons := [8], group := 5, btype := 2 },
+                          { id := 3, ctxs := [⟨3, 0, 0⟩], mons := [9], btype := 2 }]
+    let r := prepareRun stopOnAllowFailureChangeOrSkippedSync 1 [(0, q)] q.head! id
+    (r.1.map (·.ctxs)) = some [⟨2, 0, 5⟩, ⟨3, 0, 0⟩] ∧ (r.1.map (·.mons)) = some [7, 8, 9] ∧
+    (r.1.map (·.isSync)) = some true ∧
+    ((r.1.bind fun t1 => (prepareRun stopOnAllowFailureChangeOrSkippedSync 1 r.2 t1 id).1).map (·.isSync)) = some true := by
+  decide
+
+/-- The defect this wave found on the unchanged tree (repaired, commit in the notes): before the
+repair the Synchronization task of a grouped binding (monitor 7) was merged with a following Event
+task of the same group (a binding of that group whose Synchronization is not executed is unlocked
+at once and its Events queue up behind). Group compaction kept the Event context only; that run
+failed; the retry is no Synchronization any more: it succeeds and unlocks NOTHING — monitor 7 stays
+locked for the life of the process. (Harness: fixed case 850012.) -/
+theorem sync_boundary_unrepaired_retry_unlocks_nothing :
+    let t : Task := { id := 1, ctxs := [⟨1, 0, 5⟩], mons := [7], group := 5, btype := 2 }
+    let e : Task := { id := 2, ctxs := [⟨2, 1, 5⟩], mons := [8], group := 5, btype := 2 }
+    let cfg : Retry.Cfg := { stopOf := stopBeforeSyncBoundaryRepair, version := fun _ => 1, backoff := fun _ _ => 0 }
+    let h1 := Retry.taskHandleHookRun cfg [t, e] t false
+    let h2 := Retry.taskHandleHookRun cfg h1.items h1.items.head! true
+    h1.status = .fail ∧ h1.items.head!.ctxs = [⟨2, 1, 5⟩] ∧ h1.items.head!.isSync = false ∧
+    h2.status = .success ∧ h2.unlocked = [] := by decide
+
+/-- The same queue with the repaired predicate: the Event stays queued, the retry unlocks monitor 7. -/
+theorem sync_boundary_repaired_retry_unlocks :
+    let t : Task := { id := 1, ctxs := [⟨1, 0, 5⟩], mons := [7], group := 5, btype := 2 }
+    let e : Task := { id := 2, ctxs := [⟨2, 1, 5⟩], mons := [8], group := 5, btype := 2 }
+    let cfg : Retry.Cfg := { stopOf := stopOnAllowFailureChangeOrSkippedSync, version := fun _ => 1, backoff := fun _ _ => 0 }
+    let h1 := Retry.taskHandleHookRun cfg [t, e] t false
+    let h2 := Retry.taskHandleHookRun cfg h1.items h1.items.head! true
+    h1.status = .fail ∧ h1.items = [t, e] ∧ h2.status = .success ∧ h2.unlocked = [7] := by decide
 
 end ShellOp.Combine.C01
 
